@@ -425,12 +425,38 @@ fn ron_roundtrip(req: &Value) -> Value {
 /// an object built in memory (not parsed): emit with Display (ron), parse back with FromStr, compare
 fn zerv_roundtrip(req: &Value) -> Value {
     use std::str::FromStr;
-    let schema = ZervSchema::new(
-        vec![Component::Var(Var::Major), Component::Var(Var::Minor), Component::Var(Var::Patch)],
-        vec![Component::Var(Var::Epoch), Component::Var(Var::PreRelease), Component::Var(Var::Post), Component::Var(Var::Dev)],
-        vec![Component::Var(Var::BumpedBranch), Component::Var(Var::BumpedCommitHashShort)]).unwrap();
+    use zerv::version::zerv::bump::precedence::{Precedence, PrecedenceOrder};
+    let core = vec![Component::Var(Var::Major), Component::Var(Var::Minor), Component::Var(Var::Patch)];
+    let extra = vec![Component::Var(Var::Epoch), Component::Var(Var::PreRelease), Component::Var(Var::Post), Component::Var(Var::Dev)];
+    // optional last build component: ["var", name] | ["ts", text] | ["custom", text] | ["str", text] | ["uint", n]
+    let mut build = vec![Component::Var(Var::BumpedBranch)];
+    match req.get("build_kind").and_then(|k| k.as_array()) {
+        Some(k) => {
+            let p = k[1].as_str().unwrap_or("").to_string();
+            build.push(match k[0].as_str().unwrap() {
+                "var" => Component::Var(var_of(&p)),
+                "ts" => Component::Var(Var::Timestamp(p)),
+                "custom" => Component::Var(Var::Custom(p)),
+                "str" => Component::Str(p),
+                _ => Component::UInt(k[1].as_u64().unwrap_or(0)),
+            });
+        }
+        None => build.push(Component::Var(Var::BumpedCommitHashShort)),
+    }
+    let schema = match req.get("order").and_then(|o| o.as_array()) {
+        Some(names) => {
+            let ps: Vec<Precedence> = names.iter().map(|n| match n.as_str().unwrap() {
+                "Epoch" => Precedence::Epoch, "Major" => Precedence::Major, "Minor" => Precedence::Minor, "Patch" => Precedence::Patch,
+                "Core" => Precedence::Core, "PreReleaseLabel" => Precedence::PreReleaseLabel, "PreReleaseNum" => Precedence::PreReleaseNum,
+                "Post" => Precedence::Post, "Dev" => Precedence::Dev, "ExtraCore" => Precedence::ExtraCore, _ => Precedence::Build }).collect();
+            ZervSchema::new_with_precedence(core, extra, build, PrecedenceOrder::from_precedences(ps)).unwrap()
+        }
+        None => ZervSchema::new(core, extra, build).unwrap(),
+    };
     let z = Zerv { schema, vars: vars_of(&req["vars"]) };
     let emitted = z.to_string();
     let z2 = match Zerv::from_str(&emitted) { Ok(z) => z, Err(e) => return json!({"ok": false, "emitted": emitted, "err": e.to_string()}) };
-    json!({"ok": true, "emitted": emitted, "emitted2": z2.to_string(), "object": format!("{:?}", z), "object2": format!("{:?}", z2)})
+    json!({"ok": true, "emitted": emitted, "emitted2": z2.to_string(),
+           "object": format!("{:?}|{:?}", z, z.schema.precedence_order().to_vec()),
+           "object2": format!("{:?}|{:?}", z2, z2.schema.precedence_order().to_vec())})
 }
